@@ -79,6 +79,23 @@ pub fn image_with(parser: &CooklangParser, input: &str, opt: usize) -> String {
     s
 }
 
+/// A subscriber that enables every level and discards everything: what the library logs (and whether anybody listens)
+/// is an ambient setting, not an input of the parse.
+struct AllLevels;
+impl tracing::Subscriber for AllLevels {
+    fn enabled(&self, _: &tracing::Metadata<'_>) -> bool {
+        true
+    }
+    fn new_span(&self, _: &tracing::span::Attributes<'_>) -> tracing::span::Id {
+        tracing::span::Id::from_u64(1)
+    }
+    fn record(&self, _: &tracing::span::Id, _: &tracing::span::Record<'_>) {}
+    fn record_follows_from(&self, _: &tracing::span::Id, _: &tracing::span::Id) {}
+    fn event(&self, _: &tracing::Event<'_>) {}
+    fn enter(&self, _: &tracing::span::Id) {}
+    fn exit(&self, _: &tracing::span::Id) {}
+}
+
 /// the fixed pool: identical in every process so that hashes are comparable across processes
 pub fn pool() -> Vec<String> {
     let mut v: Vec<String> = SEEDS.iter().map(|s| s.to_string()).collect();
@@ -102,6 +119,10 @@ pub fn pool() -> Vec<String> {
         ">> [mode]: components\n@a{1} @b{2} @c{3}\n>> [mode]: steps\n@&a{1} @&b{2} @&c{3} @d @e @f",
         "@a{1/0} @b{%g} @{} #{} ~{} @c{99999999999} @&(0)d{} @&(~9)e{}",
         "= a = b\n>> k\n>> : v\n>> k2:\n@ x # y ~ z",
+        "Add @++??salt{1%pinch} and @&&--x{} and #??++y{} and mix.",
+        "@a{1/0} @b{2 1/0} @c{99999999999/2} then @d{1/2%cup} and @e{1 1/2} and @f{3/4%g}",
+        "Add the @{} to the bowl.\n\nWait ~{} and then add @water{1/0%l}.\n",
+        "@a{1%kg} @&a{2%l} @&a{3%cups} @&a{100%g} @&a{1%pinch} @&a{2%°C}",
     ] {
         v.push(s.to_string());
     }
@@ -183,8 +204,10 @@ fn sequential(ctx: &mut Ctx, pool: &[String], log: &mut Log, calls: usize) {
         let i = r.below(pool.len());
         // one call in three goes through parse_with_options / parse_metadata_with_options
         let opt = if k % 3 == 1 { 1 + r.below(3) } else { 0 };
+        // one call in eight runs with a listener for every tracing level installed on this thread
+        let listened = k % 8 == 5;
         let res = crate::core::guarded(|| {
-            let img = image_with(parser, &pool[i], opt);
+            let img = if listened { tracing::subscriber::with_default(AllLevels, || image_with(parser, &pool[i], opt)) } else { image_with(parser, &pool[i], opt) };
             // interleave other operations on the same parser between parses
             if k % 3 == 0 {
                 if let Some(rec) = parser.parse(&pool[(i + 1) % pool.len()]).into_output() {
@@ -200,6 +223,9 @@ fn sequential(ctx: &mut Ctx, pool: &[String], log: &mut Log, calls: usize) {
                 log.record(i, ci + 10 * opt, hash64(img.as_bytes()));
                 if opt > 0 {
                     ctx.count("calls_with_parse_options");
+                }
+                if listened {
+                    ctx.count("calls_with_tracing_listener");
                 }
             }
             Err(_) => ctx.count("panic_in_parse(C03)"),
